@@ -24,6 +24,7 @@ RULE = ("placements: every documented placement (22) x every documented receiver
         "fnshapes: enclosing function with no parameters / only non-handle parameters / only the handle / a local let named app, window or webview (untyped, mut, typed) x receivers that fit (static method chain, clone of it, call().clone(), field of a global, field of a call result, plain call and the static itself which must not count) x attributes/visibility/async/unsafe/const/command-or-not (29 combinations) x rotating placement x emit/emit_to; "
         "compositions: every ordered pair of 33 wrappers around one emit (15 documented: method receiver without/with arguments, await, ?, block, if-then, if-else, else-if, match arm expression/block, loop, while, for, let and let-else initialiser in a block; 18 undocumented: parentheses, &, unary, cast, call/method argument, field access, index, closure call, return, break value, macro argument, tuple, closure body, unsafe/async block, condition, scrutinee), 500 (quick) sampled triples, as let initialiser and as expression statement; "
         "mappings: 6 type_mappings sets (primitive targets, one non-primitive target, keys that are Rust primitives, an unrelated key, none) x 13 payload types (mapped names bare / referenced / qualified, unmapped, primitives, nested in Vec / Option / HashMap / tuple) x param / let / alias / struct expression / clone, both modes, through a configuration file (CLI) and through both visitors (library API); expected type computed by the spec with the mapping applied; a quarter of the structured cases carry a mapping; "
+        "rawidents: raw identifiers r#type r#match r#final r#async r#in as payload variable (typed parameter, typed let, untyped let, alias, plain-spelled decoy, unbound, struct field) x 4 types x {x,&x,x.clone()}, and as names of the hosting functions; "
         "payloads: every payload form (27) and every leaf/depth-1 type (36) x param/let/let-without-init/alias x {x,&x,x.clone(),&x.clone(),&&x}, "
         "every untyped initialiser form x fresh/shadowing, scoping cases; names: every name of length <= 2 over {a,B,1,_,-,:,/}, every pair of "
         "distinct names of length <= 2 over {a,A,_,-}; repeats across sites/functions/files, no-event and no-command projects; "
@@ -192,6 +193,7 @@ def run(rep):
                ("fnshapes", G.enum_fnshapes(), True),
                ("compositions", G.enum_compositions(rng, 6000 if thorough else 500), True),
                ("mappings", G.enum_mappings(), True),
+               ("rawidents", G.enum_raw_idents(), True),
                ("payloads", G.enum_payloads(), True),
                ("names", G.enum_names(), True),
                ("repeats", G.enum_repeats(), True)]
